@@ -97,7 +97,7 @@ func findProp(id string) *prop {
 	return nil
 }
 
-var plain = []buildVariant{{Name: "plain"}}
+var plain = []buildVariant{{Name: "plain", Tags: []string{"verif"}}}
 
 var trusted = []string{
 	"trusted base: Go 1.23.5 toolchain, pgregory.net/rapid v1.3.0, encoding/json, math/big, regexp, this harness",
@@ -105,6 +105,17 @@ var trusted = []string{
 }
 
 var props = []*prop{
+	{
+		ID: "C01", Pkg: "c01", Level: "exploration",
+		Technique:   "property-based differential testing (rapid; native go fuzzing in the thorough tier) against an independent draft-4 reference evaluator",
+		LevelText:   "Generated (schema, instance) pairs over the whole supported vocabulary, each judged by the library through both entry points and by an independent reference evaluator with exact rational arithmetic that is re-calibrated on every run against the JSON-Schema-Test-Suite. Exploration: verdict equality held on every generated pair outside the exactly-replicated open findings.",
+		LevelNote:   "Trusted: internal/refmodel (about 400 lines, shares no code with the library; calibrated against /repo/fixtures/jsonschema_suite on each run), the format registry object shared by both sides, Go regexp, rapid. Open findings are replicated exactly in the model (deviation modes), so a different deviation is still reported.",
+		Assumptions: trusted,
+		Builds:      plain,
+		Quick:       budget{Shards: 14, Checks: 6000, TimeoutS: 400},
+		Thorough:    budget{Shards: 14, Checks: 150000, TimeoutS: 3000},
+		Fuzz:        &fuzzCfg{Target: "FuzzC01", Seconds: 240},
+	},
 	{
 		ID: "C20", Pkg: "c20", Level: "exploration",
 		Technique:   "stateful property-based testing (rapid) against an ordered-set + counter reference model",
